@@ -385,6 +385,44 @@ def flood_family(prefix, seed, tier, twins=False):
     return [sc_flood_reset("%s-floodreset-%d" % (prefix, n), rng.randrange(1 << 30), rng.choice([576, 1500, 9216]), n, twins=twins) for n in ns]
 
 
+def sc_retry(name, seed, mtu, kinds=("large", "query", "emit", "discover")):
+    """A request hit by a platform fault, a Reset, and then a DIFFERENT request that happens to carry the same
+    sequence number (a mapper that timed out and restarted its counter): the answer is the answer to the new
+    request. Interface 2 is the fresh twin: it sees only what follows each Reset."""
+    rng = random.Random(seed)
+    s = new_script(mtu=mtu, twins=True, icon=(2 * (mtu - 34) + 17, 9), name=(mtu - 34 + 5, 4))
+    S = rng.choice([1, 7, 0x0100, 0xFFFF])
+    pairs = []
+    if "large" in kinds:
+        pairs += [(query_large(M1, OWN, 0x0E, 0, seq=S), query_large(M1, OWN, 0x11, 0, seq=S)),
+                  (query_large(M1, OWN, 0x0E, 0, seq=S), query_large(M1, OWN, 0x0E, mtu - 34, seq=S)),
+                  (query_large(M1, OWN, 0x11, 0, seq=S, tos=1), query_large(M1, OWN, 0x13, 0, seq=S)),
+                  (query_large(M1, OWN, 0x0E, mtu - 34, seq=S), query_large(M1, OWN, 0x0E, 0, seq=S, eth_src=BR))]
+    if "query" in kinds:
+        pairs += [(query(M1, OWN, seq=S), query(M1, OWN, seq=S))]
+    if "emit" in kinds:
+        pairs += [(emit(M1, OWN, [(1, 0, OWN, PEER), (0, 1, OWN, X)], seq=S), emit(M1, OWN, [(0, 2, OWN, X)], seq=S))]
+    if "discover" in kinds:
+        pairs += [(discover(0, M1, gen=0x1111, seq=S), discover(0, M1, gen=0x2222, seq=S, eth_src=BR))]
+    for first, second in pairs:
+        for fault in (dict(send=1), dict(send="all"), dict(alloc=1), dict(alloc=2)):
+            s.rx(1, discover(0, M1, gen=3, seq=1))
+            s.rx(1, probe(X, OWN, X, OWN))
+            s.fault(**fault)
+            s.rx(1, first)
+            s.clear()
+            if rng.random() < 0.3:
+                s.rx(1, first)                     # the mapper may retry at once, too
+            s.rx([1, 2], reset(M1))
+            if rng.random() < 0.5:
+                s.rx([1, 2], discover(0, M1, gen=4, seq=2))
+            s.rx([1, 2], probe(PEER, OWN, PEER, OWN, train=True))
+            s.rx([1, 2], second)
+            s.rx([1, 2], query(M1, OWN, seq=(S % 0xFFFF) + 1))
+            s.rx([1, 2], reset(M1))
+    return Scenario(name, s.lines)
+
+
 def sc_header_sweep(name, tos_list, ops, context, ver=1, dst_own=True):
     """one frame per (service byte, opcode) with a plausible body, from nobody / the bound mapper / a stranger;
     a Reset of both services in between keeps every frame's context the same"""
@@ -902,6 +940,8 @@ def campaign_c08(seed, tier):
             scs.append(sc_c08("c08-%d-%d" % (mtu, i), rng.randrange(1 << 30), mtu, sz, nsz, hwid, tier))
         scs.append(sc_c08("c08-%d-absent" % mtu, rng.randrange(1 << 30), mtu, None, None, b"", tier))
     scs += tiny_family("c08", seed, tier)
+    for i, mtu in enumerate([576, 1500] if tier == "quick" else [576, 590, 1492, 1500, 9000] * 4):
+        scs.append(sc_retry("c08-retry-%d-%d" % (mtu, i), rng.randrange(1 << 30), mtu, kinds=("large",)))
     return with_slow(scs, seed, every=6)
 
 
@@ -967,6 +1007,8 @@ def campaign_c09(seed, tier):
     for i in range(32 if tier == "quick" else 3000):
         scs.append(sc_c09("c09-%d" % i, rng.randrange(1 << 30), MTUS[i % 3], [0.0, 0.2, 0.5][i % 3], rng.choice([0, 1, 5, 30, 80]), wifi=i % 2))
     scs += flood_family("c09", seed, tier, twins=True)
+    for i, mtu in enumerate([576, 1500] if tier == "quick" else [576, 590, 1492, 1500, 9000] * 4):
+        scs.append(sc_retry("c09-retry-%d-%d" % (mtu, i), rng.randrange(1 << 30), mtu))
     return with_slow(scs, seed, every=4)
 
 
@@ -1269,6 +1311,8 @@ def campaign_c18(seed, tier, counts):
                     g = rng.randrange(1 << 17)
                     scs.append(sc_c18("c18-%s-%d-get%x-a%d" % (nm, wifi, g, 2), wifi, pre, tgt,
                                       dict(get=g, alloc=rng.randrange(0, na + 1), send=rng.randrange(0, 4)), rng.randrange(1 << 30)))
+    for i, mtu in enumerate([576, 1500] if tier == "quick" else [576, 590, 1492, 1500, 9000] * 3):
+        scs.append(sc_retry("c18-retry-%d-%d" % (mtu, i), rng.randrange(1 << 30), mtu))
     return scs
 
 
